@@ -857,3 +857,46 @@ pub fn minimise(
     }
     (best, best_v)
 }
+
+/// Determinism self-test support: digest of the first `n` runs of a check,
+/// executed on `workers` threads. Two invocations (other worker count, other
+/// process) must print the same digest.
+pub fn digest(check: &dyn Check, seed: u64, n: u64, workers: usize) -> (u64, Vec<u64>) {
+    let known = Known::load().keys_for(check.id());
+    let results: Mutex<Vec<(u64, u64)>> = Mutex::new(Vec::new());
+    let next = AtomicU64::new(0);
+    let workers = check.workers().unwrap_or(workers).max(1);
+    std::thread::scope(|sc| {
+        for _ in 0..workers {
+            sc.spawn(|| {
+                set_quiet(true);
+                loop {
+                    let i = next.fetch_add(1, Ordering::Relaxed);
+                    if i >= n {
+                        break;
+                    }
+                    let mut src = src_for(check, seed, i);
+                    let (ctx, r) = run_one(check, &mut src, false, &known);
+                    let mut h = TraceHash::default();
+                    h.add(ctx.hash.0);
+                    h.add(src.log.len() as u64);
+                    for v in &src.log {
+                        h.add(*v);
+                    }
+                    h.add(ctx.steps);
+                    if let Err(e) = r {
+                        h.add_bytes(e.key.as_bytes());
+                    }
+                    results.lock().unwrap().push((i, h.0));
+                }
+            });
+        }
+    });
+    let mut v = results.into_inner().unwrap();
+    v.sort();
+    let mut h = TraceHash::default();
+    for (_, x) in &v {
+        h.add(*x);
+    }
+    (h.0, v.into_iter().map(|x| x.1).collect())
+}
